@@ -802,15 +802,25 @@ class TextXMetaModel(DebugPrinter):
             if self._tx_model_repository.all_models.has_model(file_name):
                 model = self._tx_model_repository.all_models[file_name]
 
+        # File names cached in the repository the main model is attached to
+        # (the global repository of this meta-model or a repository owned by
+        # the caller) before this load added anything.
+        cached_before = []
+
         def kwargs_callback(other_model):
             if hasattr(other_model, "_tx_metamodel"):
                 other_model._tx_model_params = model_params
             if callback:
                 callback(other_model)
-
-        cached_before = None
-        if is_main_model and hasattr(self, "_tx_model_repository"):
-            cached_before = set(self._tx_model_repository.all_models.filename_to_model)
+            if is_main_model and hasattr(other_model, "_tx_model_repository"):
+                all_models = other_model._tx_model_repository.all_models
+                cached_before.append(
+                    {
+                        fname
+                        for fname, m in all_models.filename_to_model.items()
+                        if m is not other_model
+                    }
+                )
 
         if not model:
             # Read model from file
@@ -831,13 +841,18 @@ class TextXMetaModel(DebugPrinter):
             for p in self._model_processors:
                 p(model, self)
         except:  # noqa
-            if cached_before is not None:
+            if cached_before:
                 # A model processor failed: models loaded by this (failed)
-                # attempt must not stay in the global repository.
-                repo = self._tx_model_repository
-                for fname, m in list(repo.all_models.filename_to_model.items()):
-                    if fname not in cached_before:
-                        repo.remove_model(m)
+                # attempt must not stay in the repositories.
+                from textx.scoping import remove_models_from_repositories
+
+                all_models = model._tx_model_repository.all_models
+                loaded_now = [
+                    m
+                    for fname, m in all_models.filename_to_model.items()
+                    if fname not in cached_before[0]
+                ]
+                remove_models_from_repositories([model], loaded_now)
             raise
 
         return model
